@@ -15,7 +15,7 @@ from vlib import Result, enc_list, f2b, Toks, close
 
 PROP = 'C14'
 META = {
-    'level_text': 'Lean 4 theorems about definitions REGENERATED from the kawin sources on every run (concolic trace of the real Clemm-Fisher factor methods, NucleationBarrierParameters.Rcrit/Gcrit and the scalar formulas of NucleationRate.py) and about a hand model of the guards, the cached-factor state machine, incubationTimeNonIsothermal, _calcNucleationSites and the per-phase step of _calcNucleationRate: area - 2k*gbRemoval = 3*volume for bulk/boundary/edge/corner as ring identities for every k and every interpretation of pi, sqrt, arcsin, arccos; hence Rcrit = 2*gamma/dG (the regenerated bulk formula) and Gcrit = volume/(4pi/3) * spherical barrier when gamma_gb = 2k*gamma; boundary factors: closed form, sign and strict decrease on [0,1], sphere values at k=0; edge/corner sphere values at k=0 over the reals (Mathlib arcsin/arccos); dG > 0 => Rcrit >= Rmin, Gcrit >= 0 (bulk always; boundary kinds while dG*Rmin <= 3*gamma), barrier non-increasing in dG, dG <= 0 => Rcrit = Gcrit = 0 and rate 0 - also on the copied slice of a run (after the repair of D-C14-stale); Zeldovich/beta/tau strictly positive with non-zero denominators and non-negative square-root arguments under the code guards; non-isothermal incubation time >= 0; incubation factor in (0,1], equal to exp(-tau/t), monotone in t; finite-time rate = steady rate * incubation factor; Z*beta independent of Rcrit and steady-state rate non-decreasing in dG over ALL real dG; sites >= 0 and antitone in the occupying populations; cached factors = fresh computation after ANY sequence of gamma/gbEnergy/description assignments and reads (induction over the op list; the invalidation table is probed on the real class and regenerated), and a getter that does not raise returns the regenerated formula, never the -1 sentinel. Generated definitions are validated numerically against the Python functions (scalar and array calls) on every run; the hand models are tied by differential correspondence (op sequences, random histories and populations, trace refinement of a real Al-Zr run with a temperature jump).',
+    'level_text': 'Lean 4 theorems about definitions REGENERATED from the kawin sources on every run (concolic trace of the real Clemm-Fisher factor methods, NucleationBarrierParameters.Rcrit/Gcrit and the scalar formulas of NucleationRate.py) and about a hand model of the guards, the cached-factor state machine, incubationTimeNonIsothermal, _calcNucleationSites and the per-phase step of _calcNucleationRate: area - 2k*gbRemoval = 3*volume for bulk/boundary/edge/corner as ring identities for every k and every interpretation of pi, sqrt, arcsin, arccos; hence Rcrit = 2*gamma/dG (the regenerated bulk formula) and Gcrit = volume/(4pi/3) * spherical barrier when gamma_gb = 2k*gamma; boundary factors: closed form, sign and strict decrease on [0,1], sphere values at k=0; edge/corner sphere values at k=0 over the reals (Mathlib arcsin/arccos); dG > 0 => Rcrit >= Rmin, Gcrit >= 0 (bulk always; boundary kinds while dG*Rmin <= 3*gamma), barrier non-increasing in dG, dG <= 0 => Rcrit = Gcrit = 0 and rate 0 - also on the copied slice of a run (after the repair of D-C14-stale); Zeldovich/beta/tau strictly positive with non-zero denominators and non-negative square-root arguments under the code guards; non-isothermal incubation time >= 0; incubation factor in (0,1], equal to exp(-tau/t), monotone in t; finite-time rate = steady rate * incubation factor; Z*beta independent of Rcrit and steady-state rate non-decreasing in dG over ALL real dG; sites >= 0 and antitone in the occupying populations; cached factors = fresh computation after ANY sequence of gamma/gbEnergy/description assignments and reads (induction over the op list; the invalidation table is probed on the real class and regenerated), and a getter that does not raise returns the regenerated formula, never the -1 sentinel. Generated definitions are validated numerically against the Python functions (scalar and array calls) on every run; the hand models are tied by differential correspondence (op sequences, random histories and populations, trace refinement of a real Al-Zr run with a temperature jump). On the composed KWN step (KawinV.KWNFull) depEval_nuc proves for every backend that a recorded row with negative driving force carries no nucleation rate / radius / barrier / impingement and that a non-zero critical radius is at least Rmin; the nucleation stage of real runs (regenerated formulas + site competition) is replayed step by step.',
     'level_note': 'Monitored only (oracle, fine grid up to each limit with a tolerance scaled by the conditioning of the formulas): sign and monotonicity of the edge and corner factors on (0,k_max). Trusted: Lean kernel + Mathlib (propext, Classical.choice, Quot.sound); the tracer tools/py2lean/sym.py - its output is re-validated numerically at a few hundred random points per definition per run and its guards (path conditions) are asserted at generation; exact real/field arithmetic instead of IEEE doubles (NaN/inf outside the statement; next to the limits the double evaluation of the factors is ill-conditioned); thermodynamic inputs (driving force, diffusivity, impingement factor, interfacial compositions) are inputs of the model. Known finding gcrit-negative-gb-rmin: for boundary/edge/corner sites the code barrier is <= 0 once dG*Rmin >= 3*gamma; the Gcrit >= 0 and rate-monotonicity theorems carry that hypothesis visibly (barrier_gb_Gcrit_nonneg_partial, steadyChain_mono_gb_partial, witness barrier_gb_Gcrit_negative_witness). Observation outside the statement: dislocation sites take the BulkDescription branch of _calcNucleationSites (DislocationDescription subclasses BulkDescription), so the dislocation density never enters the site count (calcSites_dislocation_uses_bulk_branch).',
     'technique': 'Lean 4 proof over ordered fields / reals about source-regenerated definitions + translator validation + model/implementation differential correspondence + run-trace refinement',
     'design_ref': 'DESIGN.md section 6, C14',
